@@ -34,7 +34,7 @@ HFLAGS = "forall(lambda r: implies(field_of(r, 'hook_failed', 'Step') and not ol
 CAP = ("cinv(runner.capture_controller, sys) and is_none(runner.capture_controller.old_stdout) "
        "and is_none(runner.capture_controller.old_stderr) and not is_none(runner.context) "
        "and sys.stdout is old(sys.stdout) and sys.stderr is old(sys.stderr)")
-CTX = ("G_ctx_scenario is self and (is_none(G_ctx_feature) or typeof_is(G_ctx_feature, 'Feature')) "
+CTX = ("G_ctx_scenario is self and (is_none(G_ctx_feature) or typeof_is(G_ctx_feature, 'Feature')) and (G_ctx_rule is ABSENT or typeof_is(G_ctx_rule, 'Rule')) "
        "and G_ctx_depth == old(G_ctx_depth) + 1")
 HOOKMOD = ["G_nhooks", "G_hook_name", "G_hook_arg", "G_bad", "G_ctx_aborted", "runner.hook_failures", "*.hook_failed", "*.error_message", "*.exception", "*.exc_traceback"]
 STEPMOD = ["G_bad", "G_nhooks", "G_hook_name", "G_hook_arg", "G_ncalls", "G_calls", "G_nev", "G_ev_kind", "G_ev_arg",
@@ -54,7 +54,7 @@ contract(M + "Scenario.run", props=P,
              "not-capturing-at-entry": "is_none(runner.capture_controller.old_stdout) and is_none(runner.capture_controller.old_stderr)",
              "context-attributes-are-model-elements":
                  "(G_ctx_scenario is ABSENT or typeof_is(G_ctx_scenario, 'Scenario')) and "
-                 "(is_none(G_ctx_feature) or typeof_is(G_ctx_feature, 'Feature'))",
+                 "(is_none(G_ctx_feature) or typeof_is(G_ctx_feature, 'Feature')) and (G_ctx_rule is ABSENT or typeof_is(G_ctx_rule, 'Rule'))",
              "no-continue-after-failed-step": "True",
          },
          callsites={"self.captured.reset": "abs:Scenario.captured.reset",
@@ -111,8 +111,9 @@ contract(M + "Scenario.run", props=P,
                      "G_nhooks == pre(G_nhooks) and forall(lambda k: implies(0 <= k < _i, _at(k).status == Status.skipped)))",
                  "steps": "_seq is all_steps_of(self) and forall(lambda k: implies(0 <= k < _n, step_rank(_at(k)) == k))",
              }),
+             Loop(broadcast=[("abs:fmt.match", "match"), ("abs:fmt.result", "result")]),  # dry-run: undefined step
              Loop(broadcast=[("abs:fmt.match", "match"), ("abs:fmt.result", "result")]),  # dry-run emulation
-             # 6: after_tag hooks
+             # 7: after_tag hooks
              Loop(modifies=HOOKMOD, invariant={
                  "capture": CAP, "context": CTX, "hook-flags": HFLAGS,
                  "visible-counters": "implies(runner.hook_failures > old(runner.hook_failures), G_bad > old(G_bad)) and "
@@ -126,7 +127,7 @@ contract(M + "Scenario.run", props=P,
                  "steps-of-a-scenario-are-distinct-objects":
                  "forall(lambda k: implies(0 <= k < len(%s), step_rank(%s[k]) == k))" % (STEPS, STEPS)},
          modifies=["G_bad", "G_nhooks", "G_hook_name", "G_hook_arg", "G_ncalls", "G_calls", "G_nev", "G_ev_kind",
-                   "G_ev_arg", "G_ctx_aborted", "G_ctx_scenario", "G_ctx_depth", "G_ctx_saved_scenario",
+                   "G_ev_arg", "G_ctx_aborted", "G_ctx_scenario", "G_ctx_depth", "G_ctx_saved_scenario", "G_ctx_rule", "G_ctx_saved_rule",
                    "G_npops", "G_ncleanup_runs", "G_log_installed", "G_ctx_writes",
                    "*.status", "*.hook_failed", "*.duration", "*.exception",
                    "*.exc_traceback", "*.error_message", "*.captured", "*.should_skip", "*.skip_reason",
@@ -137,7 +138,7 @@ contract(M + "Scenario.run", props=P,
                    "runner.capture_controller.log_capture", "sys.stdout", "sys.stderr"],
          ensures={
              # ---- C13 -------------------------------------------------------------------------
-             "scope-balanced": "G_ctx_depth == old(G_ctx_depth) and G_ctx_scenario == old(G_ctx_scenario)",
+             "scope-balanced": "G_ctx_depth == old(G_ctx_depth) and G_ctx_scenario == old(G_ctx_scenario) and G_ctx_rule == old(G_ctx_rule)",
              "raising-cleanup-fails-the-scenario":
                  "implies(pop_raises(old(G_npops)), result == True and self._cached_status == Status.error)",
              # ---- C01 -------------------------------------------------------------------------
@@ -154,7 +155,7 @@ contract(M + "Scenario.run", props=P,
              "hook-flags-set-only-with-a-bad-event":
                  "forall(lambda r: implies(field_of(r, 'hook_failed', 'Step') and not old(field_of(r, 'hook_failed', 'Step')), G_bad > old(G_bad)))",
              "outer-saved-scopes-kept":
-                 "forall(lambda k: implies(k < old(G_ctx_depth), G_ctx_saved_scenario(k) == old(G_ctx_saved_scenario(k))))",
+                 "forall(lambda k: implies(k < old(G_ctx_depth), G_ctx_saved_scenario(k) == old(G_ctx_saved_scenario(k)) and G_ctx_saved_rule(k) == old(G_ctx_saved_rule(k))))",
              # ---- C09 / C12 ---------------------------------------------------------------------
              "not-selected-scenario-runs-no-hook":
                  "implies(not %s and not old(G_ctx_aborted), G_nhooks == old(G_nhooks))" % SEL0,
